@@ -71,8 +71,41 @@ def imageClass (m : Mapping String) (a : AccS) : String :=
     else "image-grants-more"
   | _ => "image-grants-more"
 
+/-- include chain: mapping i includes mapping i-1 (the checker flattens includes into `Relations`
+    and ors `IncludesIdentity`); each element is `<ident>:<rels>` -/
+def parseChain (s : String) : Option (Mapping String) :=
+  (s.splitOn "/").foldlM (fun (acc : Mapping String) part =>
+    match part.splitOn ":" with
+    | [ident, rels] =>
+      match (splitNonEmpty rels ";").mapM parseRel with
+      | some rs => some { id := 0, relations := acc.relations ++ rs,
+                          includesIdentity := acc.includesIdentity || ident == "1" }
+      | none => none
+    | _ => none) { id := 0, relations := [], includesIdentity := false }
+
+/-- expected checker verdict for the upcast program (see `authProg` in stream_auth.go) -/
+def progModel (a b req : AccS) (m : Mapping String) : String × List String :=
+  if !permits b a then ("reject", ["cast-rejected"])
+  else match image m b with
+    | none => ("reject", ["image-unrepresentable"])
+    | some rb => if permits req rb then ("ok", ["member-readable", "via-" ++ kindTag rb])
+                 else ("reject", ["member-denied", "via-" ++ kindTag rb])
+
 def judge (op : List String) (go : String) : Verdict :=
   match op with
+  | ["auth", "prog", a, b, req, chain, _engine] =>
+    match parseAccess a, parseAccess b, parseAccess req, parseChain chain with
+    | some a, some b, some req, some m =>
+      let (exp, tags) := progModel a b req m
+      let tags := ["prog", "!nt", "a-" ++ kindTag a, "b-" ++ kindTag b, "req-" ++ kindTag req] ++ tags
+      -- spec: an accepted program must not give the holder of `a` more than its mapped entitlements satisfy
+      let u := univ (ents a ++ ents b ++ ents req ++ ents (.map m))
+      let justified := (subsets u).all (fun H => !sat a H || sat req (applyMap m H))
+      if go == "ok" && !justified then
+        .violation "upcast-escalation" "reject (the holder of the original reference does not have the required entitlement on the mapped member)" tags
+      else if go != "ok" && go != "reject" then .violation "go-panic-or-internal" "ok or a checker error" tags
+      else if go == exp then .ok tags else .modelDiff exp tags
+    | _, _, _, _ => .skip "bad-op"
   | ["auth", "permits", a, b] =>
     match parseAccess a, parseAccess b with
     | some req, some held =>
